@@ -2170,13 +2170,15 @@ class Client:
         wish to call select() or equivalent on.
 
         Do not use if you are using `loop_start()` or `loop_forever()`."""
-        if self._sock is None:
+        sock = self._sock
+        if sock is None:
             return MQTTErrorCode.MQTT_ERR_NO_CONN
 
         now = time_func()
         self._check_keepalive()
-        if self._sock is None:
-            # _check_keepalive() closed the connection and already reported it.
+        if self._sock is not sock:
+            # _check_keepalive() closed the connection and already reported it
+            # (on_disconnect may have opened a new one since).
             return MQTTErrorCode.MQTT_ERR_CONN_LOST
 
         if self._ping_t > 0 and now - self._ping_t >= self._keepalive:
